@@ -237,8 +237,7 @@ def run_cloud(case, ctx):
         ctx.ambiguous("points-coincide-in-float32")
         return
     idx = [pos_to_idx[tuple(p)] for p in got_xyz.tolist()]
-    if not sort:
-        ctx.check(idx == list(range(n)), f"{which}/nosort-keeps-input-order", "rows are not in input order")
+    # (which row a given input point gets is not part of the statement, with sort on or off: nodes are identified by position)
     par = [-1] * n
     for node, p in enumerate(pids):
         par[idx[node]] = -1 if p == -1 else idx[p]
